@@ -308,7 +308,7 @@ def linspace(a, b, n, dtype=None, **k):
     for x in (a, b, n):
         if isinstance(x, SymReal):
             raise NotEncodable("linspace with symbolic arguments")
-    if dtype is int or dtype is _np.int_:
+    if dtype is int or dtype is _np.int_ or getattr(dtype, "__name__", "") in ("int", "sym_int", "int64"):
         # concrete arguments: numpy's own float truncation is what evo gets
         return _np.linspace(float(a), float(b), int(n), dtype=int)
     n = int(n)
